@@ -22,6 +22,7 @@ import (
 type contract struct {
 	fn      string                                        // known function
 	closure func(p *Prog, fn *ssa.Function) *ssa.Function // optional: the closure of fn the row is about
+	inner   func(p *Prog, fn *ssa.Function) *ssa.Function // optional: same, selected directly
 	name    string
 	hook    func(e *Expr) (ISet, bool)
 	init    func(a *Analysis, st *State)
@@ -165,6 +166,24 @@ func hasEvent(set map[string]bool, ev string) bool {
 		}
 	}
 	return false
+}
+
+// onceBody selects the function fn hands to sync.Once.Do (a closure, a method
+// value, a named function), wherever in fn or its helpers that call stands.
+func onceBody(p *Prog, fn *ssa.Function) *ssa.Function {
+	var out *ssa.Function
+	for _, g := range withAnon(fn) {
+		for _, cl := range p.callsIn(g, descIs("sync.Once.Do")) {
+			args := cl.Common().Args
+			if len(args) == 0 {
+				continue
+			}
+			if f := p.funcValueOf(args[len(args)-1]); f != nil {
+				out = f
+			}
+		}
+	}
+	return out
 }
 
 // closureCalling selects the closure of fn (at any depth) that contains a
